@@ -41,6 +41,13 @@ func (a *App) ApplySchema(jsonPayload []byte) error {
 		return fmt.Errorf("unable to parse graph as a jbtf: %w", err)
 	}
 
+	// The graph goes first: if it can't be applied the application keeps its
+	// name, version and so on along with its graph.
+	err = a.graphInstance.ApplyAppSchema(jsonPayload)
+	if err != nil {
+		return err
+	}
+
 	if graph.Name != "" {
 		a.Name = graph.Name
 	}
@@ -59,7 +66,7 @@ func (a *App) ApplySchema(jsonPayload []byte) error {
 		a.WebScene = graph.WebScene
 	}
 
-	return a.graphInstance.ApplyAppSchema(jsonPayload)
+	return nil
 }
 
 func (a *App) Schema() []byte {
